@@ -148,6 +148,10 @@ static inline bool write_file(const std::string &path, const std::string &s) {
     return true;
 }
 
+// the read-only object region in force during the current library call (ro=1 objects): lets the crash handler say what happened
+struct RoRegion { volatile uintptr_t lo = 0, hi = 0; };
+inline RoRegion &active_ro() { static thread_local RoRegion r; return r; }   // per thread (executors run concurrently in C18)
+
 // measured API surface (filled by the executor, reported with the statistics)
 inline std::map<std::string, uint64_t> &api_call_counts() { static thread_local std::map<std::string, uint64_t> m; return m; }   // per thread: executors run concurrently in C18; the main thread's counts are reported
 
